@@ -51,6 +51,8 @@ def sortBy {β : Type} (key : β → Nat) (l : List β) : List β :=
 
 /-- `Domain.sort('size')` -/
 def sortSize (d : Dom) : Dom := d.project (sortBy (fun a => d.cfg a) d.attrs)
+/-- `Domain.sort('name')` -/
+def sortName (d : Dom) : Dom := d.project (d.attrs.mergeSort (fun a b => decide (a ≤ b)))
 
 end Dom
 end PGM
